@@ -552,6 +552,7 @@ def gen_doc(rng, idx: int, plan: Optional[Plan] = None) -> Doc:
     cs_ops = {None: b"/CS0 cs 0.5 scn\n", "DeviceRGB": b"/CS0 cs 0.1 0.2 0.3 scn\n",
               "DeviceCMYK": b"/CS0 cs 0.1 0.2 0.3 0.4 scn\n", "DeviceGray": b"/CS0 cs 0.25 scn\n"}[cs_name]
     d.features.append("cs:" + str(cs_name))
+    CS_UNDEF = b"/CS0 cs 0.5 scn\n"
     # content streams: optionally Flate-compressed; optionally one stream object shared by all pages
     flate = rng.random() < 0.5
     shared_prefix = rng.random() < 0.5
@@ -564,6 +565,11 @@ def gen_doc(rng, idx: int, plan: Optional[Plan] = None) -> Doc:
     kids = []
     line_no = 0
     used_form_nested = False
+    # the font the interpreter falls back to for a resource name the page does not define: get_font(None, {})
+    undef_fd = FontDesc()
+    undef_fd.kind = "type1"
+    prev_font_names: List[str] = []
+    prev_xobj_names: List[str] = []
     for i in range(d.npages):
         cnum = PAGE_BASE + 3 * i
         pnum = cnum + 2
@@ -593,7 +599,9 @@ def gen_doc(rng, idx: int, plan: Optional[Plan] = None) -> Doc:
         y = 760.0 - rng.choice([0, 3.5, 9.25])
         parts: List[bytes] = []
         pre_b, pre_ops, suf_b, suf_ops = gen_gops(rng, i, idx)
-        cur = bytearray(cs_ops + pre_b)
+        # with own resources only every other page defines /CS0 (csmap is per page)
+        cs_here = cs_name if (res_mode != "own" or i % 2 == 0) else None
+        cur = bytearray((cs_ops if cs_here else CS_UNDEF) + pre_b)
         if rng.random() < 0.5:
             cur += b"BT 40 31.5 Td (leak) Tj ET\n"      # no Tf on this page yet: shows nothing
         nlines = rng.randint(2, 4)
@@ -632,6 +640,21 @@ def gen_doc(rng, idx: int, plan: Optional[Plan] = None) -> Doc:
             if ln == 0 and nlines > 2 and rng.random() < 0.3:
                 parts.append(bytes(cur))
                 cur = bytearray()
+        # names that only the PREVIOUS page defines: fontmap / xobjmap / csmap are per page
+        here = [nm_ for nm_, _, _ in table]
+        for nm_ in prev_font_names:
+            if nm_ not in here and nm_ != "F9":
+                s_ = bytes(rng.choice(range(65, 91)) for _ in range(3))
+                cur += b"BT /%s 10 Tf 300.5 %s Td %s Tj ET\n" % (nm_.encode(), W.ser_real(775.25 - 3 * i), W.ser_string(s_))
+                pfonts.append(("undef:" + nm_, 0, undef_fd))
+                fontids.append(0)
+                shows.append((undef_fd, s_))
+                d.features.append("probe:font-of-previous-page")
+                break
+        if not xobjs and prev_xobj_names:
+            cur += b"q 1 0 0 1 200 400 cm /%s Do Q\n" % prev_xobj_names[0].encode()
+            d.features.append("probe:xobject-of-previous-page")
+        prev_font_names, prev_xobj_names = here, sorted(xobjs)
         cur += suf_b
         parts.append(bytes(cur))
         d.page_gops.append([(GOP_CODE[k], v) for k, v in pre_ops + suf_ops])
@@ -655,8 +678,8 @@ def gen_doc(rng, idx: int, plan: Optional[Plan] = None) -> Doc:
             page["Contents"] = refs
             page_reads.extend(r.n for r in refs)
         full_res = {"Font": res, "ProcSet": ["PDF", "Text"]}
-        if cs_name:
-            full_res["ColorSpace"] = {"CS0": cs_name}
+        if cs_here:
+            full_res["ColorSpace"] = {"CS0": cs_here}
         if xobjs:
             full_res["XObject"] = xobjs
         if res_mode == "own" or xobjs:
